@@ -158,6 +158,9 @@ func genC19(t *rapid.T, concurrent bool) C19Case {
 			r.Headers = append(hs, model.H{K: "Content-Type", V: "application/x-www-form-urlencoded"})
 			r.Body = "a=" + strconv.Itoa(i) + "&b=2"
 		}
+		if rapid.IntRange(0, 7).Draw(t, "compactone") == 0 {
+			r.Headers = append(r.Headers, model.H{K: "X-Compact", V: "1"})
+		}
 		if rapid.IntRange(0, 7).Draw(t, "inject") == 0 {
 			r.Headers = append(r.Headers, model.H{K: "X-Inject", V: "i" + strconv.Itoa(i)})
 		}
@@ -195,7 +198,43 @@ func genC19(t *rapid.T, concurrent bool) C19Case {
 	return c
 }
 
-func buildC19(c C19Case) (*restful.Container, interface{}) {
+// c19Retained: a route function may keep the *Request it was given (for work it finishes later);
+// what that Request says about its path parameters, attributes and selected route stays what it
+// was, whatever is served afterwards. Sequential parts only (one request at a time).
+type c19Retained struct {
+	req      *restful.Request
+	snap     []string
+	problems []string
+}
+
+func c19Snap(req *restful.Request) []string {
+	var ps []string
+	for n, v := range req.PathParameters() {
+		ps = append(ps, n+"="+v)
+	}
+	sort.Strings(ps)
+	return []string{strings.Join(ps, ","), req.SelectedRoutePath(), fmt.Sprint(req.Attribute("tag")), fmt.Sprint(req.Attribute("stag")), fmt.Sprint(req.Attribute("rtag"))}
+}
+
+// check looks at the Request kept from the previous request: something it did not say while it
+// was served is another request's (that it says less - a Request the framework has emptied - is
+// not what the statement forbids).
+func (k *c19Retained) check(req *restful.Request) {
+	if k.req != nil {
+		now := c19Snap(k.req)
+		for i := range now {
+			if now[i] != k.snap[i] && now[i] != "" && now[i] != "<nil>" && len(k.problems) < 3 {
+				k.problems = append(k.problems, fmt.Sprintf("a Request kept by the route function said %q while it was served and says %q after the next request", k.snap, now))
+				break
+			}
+		}
+	}
+	k.req, k.snap = req, c19Snap(req)
+}
+
+func buildC19(c C19Case) (*restful.Container, interface{}) { return buildC19k(c, nil) }
+
+func buildC19k(c C19Case, retain func(*restful.Request)) (*restful.Container, interface{}) {
 	echo := func(id string, req *restful.Request, resp *restful.Response) {
 		// a request may add a binding of its own to the map it was handed (filters do that to
 		// pass values on); it belongs to this request only
@@ -204,12 +243,19 @@ func buildC19(c C19Case) (*restful.Container, interface{}) {
 				m["injected"] = v
 			}
 		}
+		// a setting of this response only
+		if req.Request.Header.Get("X-Compact") != "" {
+			resp.PrettyPrint(false)
+		}
 		var ps []string
 		for k, v := range req.PathParameters() {
 			ps = append(ps, k+"="+v)
 		}
 		sort.Strings(ps)
 		sel := req.SelectedRoutePath()
+		if retain != nil {
+			retain(req)
+		}
 		doc := ""
 		if sr := req.SelectedRoute(); sr != nil {
 			doc = sr.Doc()
@@ -449,7 +495,13 @@ func checkC19(c C19Case, partName string) (vs []*Violation) {
 		// (2),(3) two sequential orders, the multiset cycled Repeat times
 		for oi, order := range [][]int{c.Order1, c.Order2} {
 			c19FreshProvider(c)
-			ct, _ := buildC19(c)
+			kept := &c19Retained{}
+			defer func() {
+				for _, p := range kept.problems {
+					vs = append(vs, viol("", "%s", p))
+				}
+			}()
+			ct, _ := buildC19k(c, kept.check)
 			pos := 0
 			for rep := 0; rep < max(c.Repeat, 1); rep++ {
 				for _, i := range order {
